@@ -639,7 +639,7 @@ func run(c *hx.Ctx) error {
 	if p := os.Getenv("VERIF_C29_EXPLAIN"); p != "" { // development aid: one Go-quoted document per line
 		return explainFile(p)
 	}
-	res.Rule = "cases for the real code (run inside cmd/scriggo's tag-guarded test): (1) generated Markdown documents of 1-4 blocks from the construct list of the property (inline links and images with bare / angle / empty destinations, titles in the three quote forms, reference definitions and uses, code spans, fenced and indented code, HTML blocks, raw-text elements, comments, inline HTML, lists, block quotes, headings, escaped brackets and parentheses, nested brackets) through linkDestinationReplacer.replace with base https://example.com/base, dir docs; (2) random sources with random replacement lists (valid, overlapping, out of range) through applyReplacements; (3) a backslash / U+00A0 dictionary, its pairs and random bytes through markdownURLEscape and markdownUnescape; (4) generated lines x positions through parseDestination, parseTitle, findLabelEnd; (5) for the finding classes' precision self-test, per class 250 documents for which the class predicts a wrong rewriting, from per-class generators (classgens.go), partly inside a document of (1); a case is non-trivial when it has a link construct / a replacement / a backslash or C2 byte; distinct by (op, input)"
+	res.Rule = "cases for the real code (run inside cmd/scriggo's tag-guarded test): (1) generated Markdown documents of 1-4 blocks from the construct list of the property (inline links and images with bare / angle / empty destinations, titles in the three quote forms, reference definitions and uses, code spans, fenced and indented code, HTML blocks, raw-text elements, comments, inline HTML, lists, block quotes, headings, escaped brackets and parentheses, nested brackets) through linkDestinationReplacer.replace with base https://example.com/base, dir docs; (2) random sources with random replacement lists (valid, overlapping, out of range) through applyReplacements; (3) a backslash / U+00A0 dictionary, its pairs and random bytes through markdownURLEscape and markdownUnescape; (4) generated lines x positions through parseDestination, parseTitle, findLabelEnd; (5) the fence family: documents around one fenced code block - opening fence {backtick, tilde} x length 3..6 x indentation 0..4 x info string {none, word, with backticks, with tildes, link syntax}; block lines that are links, definitions, text or look like fences (same / other character, shorter / equal / longer run, indented 0..4 or by a tab, followed by nothing, blanks or text); closing fence equal / longer / indented / fence-like / missing; followed by links, definitions, autolinks; alone, after a paragraph or a block of (1), in a block quote (also left early), in a list item (continuation indented or not); LF or CRLF - and the matrix of single lines indentation x character x run 0..7 x trailing text through isFenceStart, isIndentedCode and, after the opening fences {backtick, tilde} x {1, 3, 4, 5, 6} (quick: three of the ten per line, rotating), isFenceClose; (6) for the finding classes' precision self-test, per class 250 documents for which the class predicts a wrong rewriting, from per-class generators (classgens.go), partly inside a document of (1); a case is non-trivial when it has a link construct / a replacement / a backslash or C2 byte; distinct by (op, input)"
 
 	var cases []tcase
 	var keys []string
@@ -753,15 +753,51 @@ func run(c *hx.Ctx) error {
 		scans = append(scans, scanCase{op, line, pos})
 		add(tcase{Op: op, Src: hexs(line), Pos: pos}, fmt.Sprintf("%s %q %d", op, line, pos))
 	}
+	// (6) the fence family (fence.go): documents around a fenced code block, then a matrix of
+	// single lines through isFenceStart / isFenceClose / isIndentedCode. Drawn from a stream of
+	// its own, so that the streams above stay what they are for a seed.
+	mainDocs := len(docs)
+	docK := make([]int, 0, mainDocs)
+	for i := 0; i < mainDocs; i++ {
+		docK = append(docK, 1+i)
+	}
+	fr := proto.NewRand(c.Seed ^ 0xC29FE4CE)
+	nFenceDocs := c.N(2500, 50000)
+	seenFenceDoc := map[string]bool{}
+	for i := 0; i < nFenceDocs; i++ {
+		d := genFenceDoc(fr)
+		if seenFenceDoc[d] {
+			continue
+		}
+		seenFenceDoc[d] = true
+		docs = append(docs, d)
+		docK = append(docK, len(cases))
+		add(tcase{Op: "replace", Src: hexs(d), Base: baseURL, Dir: dirName}, "replace "+d)
+	}
+	fcs := fenceCases(!c.Quick())
+	fenceBase := len(cases)
+	for _, fc := range fcs {
+		add(fc.tcase(), fc.key())
+	}
+	res.Histogram["cases-fence-documents"] = len(docs) - mainDocs
+	res.Histogram["cases-fence-lines"] = len(fcs)
 	res.Histogram["cases-replace-documents"] = len(docs)
 	res.Histogram["cases-applyReplacements"] = len(applies)
 	res.Histogram["cases-escape-unescape-strings"] = len(strs)
 	res.Histogram["cases-scanner-lines"] = len(scans)
 
+	tPhase := time.Now()
+	phase := func(name string) {
+		if os.Getenv("VERIF_C29_DEBUG") != "" {
+			fmt.Fprintf(os.Stderr, "TIME %s %v\n", name, time.Since(tPhase))
+		}
+		tPhase = time.Now()
+	}
 	results, err := runReal(cases)
 	if err != nil {
 		return err
 	}
+	phase("real code on all cases")
 	var rt []tcase
 	for _, x := range strs {
 		rt = append(rt, tcase{Op: "roundtrip", Src: hexs(x)})
@@ -824,31 +860,45 @@ func run(c *hx.Ctx) error {
 	}
 
 	// ---- model answers
-	var lines []string
-	lines = append(lines, "C29 tables")
-	for range docs {
-		lines = append(lines, "") // filled below: apply with the collected replacements
-	}
+	// (parallel to cases: tables, main documents, applies, strings x 2, scanner lines, fence
+	// documents, fence lines)
+	applyBase := 1 + mainDocs
+	strBase := applyBase + len(applies)
+	scanBase := strBase + 2*len(strs)
+	lines := make([]string, len(cases))
+	lines[0] = "C29 tables"
 	for i, d := range docs {
-		r := results[1+i]
+		r := results[docK[i]]
 		l := "C29 apply " + proto.Hex([]byte(d)) + " " + strconv.Itoa(len(r.Repls))
 		for _, rp := range r.Repls {
 			l += " " + rp[0] + " " + rp[1] + " " + proto.Hex([]byte(unhex(rp[2])))
 		}
-		lines[1+i] = l
+		lines[docK[i]] = l
 	}
-	for _, a := range applies {
+	for i, a := range applies {
 		l := "C29 apply " + proto.Hex([]byte(a.src)) + " " + strconv.Itoa(len(a.repls))
 		for _, rp := range a.repls {
 			l += " " + rp[0] + " " + rp[1] + " " + proto.Hex([]byte(unhex(rp[2])))
 		}
-		lines = append(lines, l)
+		lines[applyBase+i] = l
 	}
-	for _, s := range strs {
-		lines = append(lines, "C29 escape "+proto.Hex([]byte(s)), "C29 unescape "+proto.Hex([]byte(s)))
+	for i, s := range strs {
+		lines[strBase+2*i], lines[strBase+2*i+1] = "C29 escape "+proto.Hex([]byte(s)), "C29 unescape "+proto.Hex([]byte(s))
 	}
-	for _, s := range scans {
-		lines = append(lines, fmt.Sprintf("C29 %s %s %d", s.op, proto.Hex([]byte(s.line)), s.pos))
+	for i, s := range scans {
+		lines[scanBase+i] = fmt.Sprintf("C29 %s %s %d", s.op, proto.Hex([]byte(s.line)), s.pos)
+	}
+	for i, fc := range fcs {
+		lines[fenceBase+i] = fc.modelLine()
+	}
+	// the model's fenceScan on the fence documents that cannot put the scanner into HTML state
+	var scanDocs []int
+	var scanLines []string
+	for i := mainDocs; i < len(docs); i++ {
+		if !strings.Contains(docs[i], "<") {
+			scanDocs = append(scanDocs, i)
+			scanLines = append(scanLines, "C29 fencescan "+proto.Hex([]byte(docs[i])))
+		}
 	}
 	var model []string
 	if c.D != nil {
@@ -856,7 +906,18 @@ func run(c *hx.Ctx) error {
 		if err != nil {
 			return err
 		}
+		scanModel, err := c.D.Batch(scanLines)
+		if err != nil {
+			return err
+		}
+		for j, i := range scanDocs {
+			res.Count("fencescan "+docs[i], strings.Contains(scanModel[j], "1"))
+			if p := fenceScanCheck(docs[i], results[docK[i]], scanModel[j]); p != "" {
+				report("correspondence", "fenceScan(collectReplacements skips the lines of a fenced block)", scanLines[j], fmt.Sprintf("document %q", docs[i]), p, scanModel[j], "")
+			}
+		}
 	}
+	phase("model answers")
 	implLine := func(r tresult) string {
 		if r.Panic != "" {
 			if strings.Contains(r.Panic, "slice bounds") {
@@ -894,9 +955,13 @@ func run(c *hx.Ctx) error {
 	}
 	minimalByRaw := map[string]minimalRaw{}
 	seen := map[string]int{}
+	explainedSeen := map[string]int{}
 	for i, d := range docs {
-		r := results[1+i]
-		k := 1 + i
+		r := results[docK[i]]
+		k := docK[i]
+		if i >= mainDocs {
+			res.Hist("fence-documents/replacements-" + strconv.Itoa(min(len(r.Repls), 3)))
+		}
 		nontrivial := strings.Contains(d, "](") || strings.Contains(d, "]:")
 		res.Count(keys[k], nontrivial)
 		res.Hist(fmt.Sprintf("replacements-%d", min(len(r.Repls), 5)))
@@ -935,8 +1000,15 @@ func run(c *hx.Ctx) error {
 		}
 		// shrink with the real code: one go test per round would be too slow, so candidates
 		// are evaluated in batches (see shrinkDoc)
+		// A document that a finding class explains shrinks, by construction (shrinkDoc keeps the
+		// attribution), into a document of the same class: shrinking it changes nothing in the
+		// verdict. The first few per class are shrunk for the reader of the evidence; a document
+		// that no class explains is always shrunk.
 		class0 := explain(d, cl, detail, r).id
-		shrunk, sdetail := shrinkDoc(d, cl, class0)
+		shrunk, sdetail := d, detail
+		if explainedSeen[class0]++; class0 == "" || explainedSeen[class0] <= 8 {
+			shrunk, sdetail = shrinkDoc(d, cl, class0)
+		}
 		if sdetail == "" {
 			sdetail = detail
 		}
@@ -955,6 +1027,7 @@ func run(c *hx.Ctx) error {
 		}
 		report("property", cl, "C29 replace "+proto.Hex([]byte(shrunk)), fmt.Sprintf("document %q (found with %q; effect %s)", shrunk, d, vd.effect), sdetail, "", classify(c, shrunk, cl, sdetail, sres))
 	}
+	phase("documents: oracle, shrinking, classification")
 	// spec validation of the hypotheses of rewritten_is_absolute / idempotent_destination
 	// (UrlLaws in Lemmas/LinkDestUrl.lean) against net/url: (1) a parsed URL given the base scheme and
 	// relocated, printed and parsed again, has the base scheme; (2) every text the real replacer wrote,
@@ -976,7 +1049,7 @@ func run(c *hx.Ctx) error {
 		var texts []string
 		seenText := map[string]bool{}
 		for i := range docs {
-			for _, rp := range results[1+i].Repls {
+			for _, rp := range results[docK[i]].Repls {
 				if t := unhex(rp[2]); !seenText[t] && !strings.Contains(t, "\u00a0") {
 					seenText[t] = true
 					texts = append(texts, t)
@@ -1001,7 +1074,7 @@ func run(c *hx.Ctx) error {
 	}
 	// applyReplacements
 	for i, a := range applies {
-		k := 1 + len(docs) + i
+		k := applyBase + i
 		r := results[k]
 		res.Count(keys[k], len(a.repls) > 0)
 		cmp(k, "applyReplacements", implLine(r))
@@ -1014,7 +1087,7 @@ func run(c *hx.Ctx) error {
 	// escape / unescape
 	rtSeen := 0
 	for i, s := range strs {
-		k := 1 + len(docs) + len(applies) + 2*i
+		k := strBase + 2*i
 		res.Count(keys[k], strings.ContainsAny(s, "\\\xc2"))
 		cmp(k, "markdownURLEscape", implLine(results[k]))
 		cmp(k+1, "markdownUnescape", implLine(results[k+1]))
@@ -1030,7 +1103,7 @@ func run(c *hx.Ctx) error {
 	}
 	// scanners
 	for i, s := range scans {
-		k := 1 + len(docs) + len(applies) + 2*len(strs) + i
+		k := scanBase + i
 		r := results[k]
 		res.Count(keys[k], true)
 		var impl string
@@ -1058,6 +1131,26 @@ func run(c *hx.Ctx) error {
 		}
 		cmp(k, s.op, impl)
 	}
+	phase("applies, strings, scanners")
+	// fence lines: model = code; the CommonMark definitions (through the model, which the
+	// theorems of Props/C29.lean prove to decide them) = goldmark
+	for i, fc := range fcs {
+		k := fenceBase + i
+		r := results[k]
+		impl := fc.implLine(r)
+		res.Count(keys[k], strings.ContainsAny(fc.line, "`~") || fc.op == "indented")
+		res.Hist("fence-lines/" + fc.op + "/" + strings.TrimPrefix(strings.SplitN(impl, " ", 3)[1], "panic:"))
+		cmp(k, map[string]string{"fence": "isFenceStart", "fenceclose": "isFenceClose", "indented": "isIndentedCode"}[fc.op], impl)
+		if model != nil {
+			if checked, problem := fenceSpecValidation(fc, model[k]); checked {
+				res.SpecChecks["CommonMarkFence.OpeningFence / ClosingFence / indentCols (decided by the model) against goldmark"]++
+				if problem != "" {
+					report("correspondence", "spec-validation/CommonMarkFence-against-goldmark", lines[k], keys[k], problem, model[k], "")
+				}
+			}
+		}
+	}
+	phase("fence lines")
 	return nil
 }
 
